@@ -262,6 +262,21 @@ def evalPlanE (st : Store) : Plan → Except Err (List Row)
         | .error x => .error x
         | .ok _ => .ok (joinPure k (fun a b => holdsOpt tys on (a ++ b)) (l.width st) (r.width st) lrows rrows)
 
+/-! ### well-scoped plans: every expression reads columns its input has (what the binder guarantees) -/
+
+def inScope (w : Nat) (e : Expr) : Bool := (cols e).all (fun i => i < w)
+
+def inScopeOpt (w : Nat) : Option Expr → Bool
+  | none => true
+  | some e => inScope w e
+
+def Plan.wellScoped (st : Store) : Plan → Bool
+  | .scan _ => true
+  | .indexScan t _ _ _ resid => inScopeOpt (st.getD t default).tys.length resid
+  | .filter p c => c.wellScoped st && inScope (c.width st) p
+  | .project items c => c.wellScoped st && items.all (inScope (c.width st))
+  | .join _ on l r => l.wellScoped st && r.wellScoped st && inScopeOpt (l.width st + r.width st) on
+
 /-! ## The bound plan of a query (sql/planner/plan.rs `build_select`, the part below aggregation and ordering) -/
 
 def fromPlan : From → Plan
@@ -446,10 +461,10 @@ def filterToIndexScan (D : Defects) (st : Store) (k : Nat) : Plan → Option Pla
     match tb.indexes[k]? with
     | none => none
     | some ix =>
-      let (lo, hi, resid) := extractBounds ix.cols p
-      if lo.isEmpty && hi.isEmpty then none
-      else if !D.indexScanIgnoresNullable && !nullableBounded tb ix.cols lo hi then none
-      else some (.indexScan t k lo hi resid)
+      let b := extractBounds ix.cols p
+      if b.1.isEmpty && b.2.1.isEmpty then none
+      else if !D.indexScanIgnoresNullable && !nullableBounded tb ix.cols b.1 b.2.1 then none
+      else some (.indexScan t k b.1 b.2.1 b.2.2)
   | _ => none
 
 /-! ## The memo's view of two expressions (deduplication) -/
